@@ -236,7 +236,22 @@ def execute(plan):
                     elif "S" in solo.err:
                         bump("selection-rejected-sequentially")
                     else:
-                        good.append((da, sel, np.array(solo.res["S"], copy=True)))
+                        ref_vals = np.array(solo.res["S"], copy=True)
+                        # the same load in the thread that opened the tree: "single-threaded"
+                        # must not depend on which thread it is
+                        try:
+                            direct = select.apply(da, sel).load().values
+                            same = direct.shape == ref_vals.shape and np.array_equal(
+                                bits_of(direct, prod.level), bits_of(ref_vals, prod.level))
+                            detail = None
+                        except Exception as e:  # noqa: BLE001
+                            same, detail = False, exc_text(e)
+                        if not same:
+                            violations.append(Violation(ID, "result-differs-from-sequential",
+                                                        "load-in-another-thread", {
+                                "selection": sel, "scenario": aset["scenario"], "error": detail}))
+                            continue
+                        good.append((da, sel, ref_vals))
                 if good:
                     jobs.append(good)
             if len(jobs) < 2:
